@@ -36,7 +36,8 @@ fn probes() -> Vec<Node> {
 pub fn differential(nodes: &[Node], data: &RV, partials: &[(String, interp::PartialDef)], obs: &mut Obs, what: &str) -> Check {
     let src = print(nodes);
     let (expected, _stats) = interp::run(nodes, data, partials);
-    if expected == Err(Stop::Budget) {
+    if expected == Err(Stop::Budget) || (expected.is_err() && !interp::cost_ok(&resolve_trim(nodes), data, partials)) {
+        // explosive program (the reference stopped early, the engine would not): never run it
         obs.class("over_budget_skipped");
         return Ok(());
     }
